@@ -131,6 +131,10 @@ class DyadCarrier(object):
             if vi.shape[-1] != self.vlen:
                 raise TypeError(f"V vector {i} of shape {vi.shape}, not conforming to dyad size {self.vlen}.")
 
+            # Update the type
+            self.dtype = np.result_type(self.dtype, ui.dtype)
+            self.dtype = np.result_type(self.dtype, vi.dtype)
+
             # Don't add zero vectors
             if np.linalg.norm(ui) == 0 or np.linalg.norm(vi) == 0:
                 continue
@@ -138,10 +142,6 @@ class DyadCarrier(object):
             # Add the vectors
             self.u.append(ui.copy() if fac is None else fac*ui)
             self.v.append(vi.copy())
-
-            # Update the type
-            self.dtype = np.result_type(self.dtype, ui.dtype)
-            self.dtype = np.result_type(self.dtype, vi.dtype)
         return self
 
     def __getitem__(self, subscript):
